@@ -522,7 +522,7 @@ class UartDevice:
         if ftype == T_PING:
             self.reset_protocol()
             body = bytes([0x5A, T_PINGR, 0, 3, 1, ord("P"), 0, 0])
-            return [body + struct.pack("<H", crc16(body))]
+            return [(body + struct.pack("<H", crc16(body)), None, "ping-response")]
         if ftype == T_ACK:
             if self.await_ack:
                 cont, self.await_ack = self.await_ack, None
@@ -538,8 +538,8 @@ class UartDevice:
         if ftype == T_CMD:
             self.await_ack = None
             resp, phase = core.command(payload)
-            out = [self.ack()]
-            out.append((self.tx_frame(T_CMD, resp), "slow"))  # command execution time precedes the response
+            out = [(self.ack(), None, "ack-of-command")]
+            out.append((self.tx_frame(T_CMD, resp), "slow", "initial-response"))  # command execution time precedes the response
             if phase and phase["dir"] == "out":
                 chunks = core.chunks(phase["data"])
                 final = core.generic(phase["final_status"], phase["tag"])
@@ -553,7 +553,7 @@ class UartDevice:
                         ft, pl = seq[i]
                         if i + 1 < len(seq):
                             self.await_ack = make(i + 1)
-                        return [self.tx_frame(ft, pl)]
+                        return [(self.tx_frame(ft, pl), None, "data-out" if ft == T_DATA else "final-response")]
 
                     return cont
 
@@ -564,13 +564,13 @@ class UartDevice:
         # DATA frame
         kind, final = core.data_packet(payload)
         if kind == "more":
-            return [self.ack()]
+            return [(self.ack(), None, "ack-of-data")]
         if kind == "abort":
             self.acks_sent += 1
             self.await_ack = lambda: []
-            return [b"\x5a\xa3", self.tx_frame(T_CMD, final)]
+            return [(b"\x5a\xa3", None, "abort"), (self.tx_frame(T_CMD, final), None, "final-response")]
         self.await_ack = lambda: []
-        return [self.ack(), (self.tx_frame(T_CMD, final), "slow")]
+        return [(self.ack(), None, "ack-of-data"), (self.tx_frame(T_CMD, final), "slow", "final-response")]
 
 
 class HidDevice:
@@ -597,19 +597,19 @@ class HidDevice:
         self.reports_rx.append((rid, plen))
         if rid == 1:
             resp, phase = core.command(payload)
-            out = [(self.rep(3, resp), "slow")]
+            out = [(self.rep(3, resp), "slow", "initial-response")]
             if phase and phase["dir"] == "out":
                 chunks = core.chunks(phase["data"])
                 if phase["final_status"] != OK and len(chunks) > 1:
                     chunks = chunks[: len(chunks) // 2]
-                out += [self.rep(4, c) for c in chunks]
-                out.append(self.rep(3, core.generic(phase["final_status"], phase["tag"])))
+                out += [(self.rep(4, c), None, "data-out") for c in chunks]
+                out.append((self.rep(3, core.generic(phase["final_status"], phase["tag"])), None, "final-response"))
             return out
         if rid == 2:
             kind, final = core.data_packet(payload)
             if kind == "more":
                 return []
             if kind == "abort":
-                return [self.rep(4, b""), self.rep(3, final)]
-            return [(self.rep(3, final), "slow")]
+                return [(self.rep(4, b""), None, "abort"), (self.rep(3, final), None, "final-response")]
+            return [(self.rep(3, final), "slow", "final-response")]
         return []
